@@ -287,6 +287,19 @@ func implPqp(ns, k int, cd []float32, cx, cy []uint8) (out string) {
 	return f32hexN(fp)
 }
 
+func implBqw(metric string, t, x, y []float32) (out string) {
+	defer func() {
+		if r := recover(); r != nil {
+			out = "panic: " + fmt.Sprint(r)
+		}
+	}()
+	ff, fp, err := vectorstore.VerifBinaryDistances(t, metric, "euclidean", x, y)
+	if err != nil {
+		return "error " + err.Error()
+	}
+	return f32hexN(ff) + " " + f32hexN(fp)
+}
+
 // independent float64 evaluation of the documented formulas (for the oracle on the formula lines)
 func refHav64(x, y []float32) float64 {
 	const d2r = 0.017453292519943295769236907684886 // pi / 180
@@ -1069,6 +1082,27 @@ func formulaLines(rng *vh.Rng, o *vh.Out, full bool) {
 			}
 		}
 	}
+	// binary quantiser wiring: trained (threshold set) -> bit distance of the encodings, untrained -> the float distance
+	for i := 0; i < 400; i++ {
+		n := 1 + rng.Intn(130)
+		t := genThreshold(rng, n)
+		x, y := genVector(rng, t), genVector(rng, t)
+		for k := range x { // NaN-free vectors: the float distance of the untrained case is compared as a value
+			if x[k] != x[k] || math.IsInf(float64(x[k]), 0) || math.Abs(float64(x[k])) > 1e15 {
+				x[k] = float32(k%7) - 3
+			}
+			if y[k] != y[k] || math.IsInf(float64(y[k]), 0) || math.Abs(float64(y[k])) > 1e15 {
+				y[k] = float32(k%5) - 2
+			}
+		}
+		thr := t
+		if i%3 == 0 {
+			thr = nil // not fitted yet
+		}
+		metric := []string{"hamming", "jaccard"}[i%2]
+		fk := fnEuclid(x, y)
+		o.Emit("bqw", "bqw "+metric+" "+hexW32(thr)+" "+hexW32(x)+" "+hexW32(y)+" "+f32hex(fk), implBqw(metric, thr, x, y), true)
+	}
 	// product quantiser: small tables, every code value; distFn of the table build = the pure Go euclidean loop
 	npq := 300
 	if full {
@@ -1206,6 +1240,8 @@ func replayLine(line string) (out string) {
 			panic(err)
 		}
 		return implPqp(ns, k, w32(3), cx, cy)
+	case f[0] == "bqw" && len(f) == 6:
+		return implBqw(f[1], w32(2), w32(3), w32(4))
 	case f[0] == "fdot" && len(f) == 3:
 		x, y := w32(1), w32(2)
 		s64, sabs, s32 := refDot(x, y)
